@@ -451,8 +451,19 @@ func (s *server) do(rq request, tokens map[string]string) response {
 
 // logon obtains a bearer token for user through the server's own logon endpoint.
 func (s *server) logon(user string) (string, error) {
-	r := s.do(request{Method: http.MethodPost, Path: "/services/admin/logon", Auth: "basic:" + user,
-		Headers: []header{{"Accept", "application/json"}}}, nil)
+	var r response
+
+	// a connection dropped under load is a set-up nuisance, not a result: ask again
+	for attempt := 0; attempt < 4; attempt++ {
+		r = s.do(request{Method: http.MethodPost, Path: "/services/admin/logon", Auth: "basic:" + user,
+			Headers: []header{{"Accept", "application/json"}}}, nil)
+		if r.Err == "" {
+			break
+		}
+
+		time.Sleep(200 * time.Millisecond)
+	}
+
 	if r.Err != "" || r.Status != http.StatusOK {
 		return "", fmt.Errorf("logon %s at %s: status %d err %s body %s", user, s.Name, r.Status, r.Err, tail(string(r.Body), 300))
 	}
